@@ -47,6 +47,16 @@ pub const RUNTIME_KEYS: [&str; 8] = [
     "datafusion.runtime.file_statistics_cache_limit",
 ];
 const TEMP_DIR_KEY: &str = "datafusion.runtime.temp_directory";
+/// `SessionStateBuilder::new_from_existing` (used by every runtime `SET`) documents that it turns
+/// this start-up-only option off once the default catalog exists: not compared after a runtime SET
+const STARTUP_KEY: &str = "datafusion.catalog.create_default_catalog_and_schema";
+
+fn nrm(mut e: Entries, runtime_set_done: bool) -> Entries {
+    if runtime_set_done {
+        e.remove(STARTUP_KEY);
+    }
+    e
+}
 
 pub fn session_keys() -> Vec<String> {
     ConfigOptions::new().entries().into_iter().map(|e| e.key).collect()
@@ -218,7 +228,7 @@ macro_rules! sqltry {
 
 /// every text `SHOW ALL` reports for a runtime key can be SET back without changing `SHOW ALL`
 fn runtime_sweep(s: &Sess) -> Eval {
-    let before = sqltry!(s.show("ALL"), "SHOW ALL");
+    let mut before = nrm(sqltry!(s.show("ALL"), "SHOW ALL"), true);
     for k in RUNTIME_KEYS {
         if k == TEMP_DIR_KEY {
             continue;
@@ -231,13 +241,14 @@ fn runtime_sweep(s: &Sess) -> Eval {
             }
             Ok(()) => {}
         }
-        let after = sqltry!(s.show("ALL"), "SHOW ALL");
+        let after = nrm(sqltry!(s.show("ALL"), "SHOW ALL"), true);
         if strip(&after, "", true) != strip(&before, "", true) {
             return Eval::Finding(Finding {
                 class: format!("reported-text-not-idempotent:{k}"),
                 message: format!("SET {k} = {} (the reported text) changed SHOW ALL: {}", quote(t), diff(&strip(&before, "", true), &strip(&after, "", true))),
             });
         }
+        before = after;
     }
     Eval::Ok { labels: vec![], nontrivial: false }
 }
@@ -274,6 +285,7 @@ pub fn evaluate(case: &Case, with_runtime_sweep: bool) -> Eval {
     let mut shadow: ConfigOptions = s.ctx.state().config().options().as_ref().clone();
     let defaults = shadow_entries(&shadow);
     let mut applied = 0;
+    let mut rt = false; // a runtime SET has been executed
     for (k, v) in &case.base {
         let k = pick_key(&keys, *k);
         let v = val_text(v);
@@ -283,6 +295,7 @@ pub fn evaluate(case: &Case, with_runtime_sweep: bool) -> Eval {
         if is_runtime(&k) {
             if s.set(&k, &v).is_ok() {
                 applied += 1;
+                rt = true;
             }
         } else {
             // keep session and shadow in step: apply only what the shadow accepts (a rejected set
@@ -302,11 +315,17 @@ pub fn evaluate(case: &Case, with_runtime_sweep: bool) -> Eval {
             }
         }
     }
-    let before = sqltry!(s.show("ALL"), "SHOW ALL");
+    if rt && key == STARTUP_KEY {
+        return Eval::Discard("start-up-only option after a runtime SET".into());
+    }
+    if is_runtime(&key) {
+        rt = true;
+    }
+    let before = nrm(sqltry!(s.show("ALL"), "SHOW ALL"), rt);
     let mut labels = vec![format!("base-sets={}", applied.min(3)), if is_runtime(&key) { "runtime-key".to_string() } else { "session-key".to_string() }];
     let mut nontrivial = false;
     // the session's report must agree with the shadow before the set under test
-    let sh = shadow_entries(&shadow);
+    let sh = nrm(shadow_entries(&shadow), rt);
     for (k, v) in &sh {
         if before.get(k) != Some(v) {
             return Eval::Finding(Finding { class: "show-disagrees-with-entries".into(), message: format!("before the set under test SHOW ALL reports {k} = {:?}, ConfigOptions::entries() {v:?}", before.get(k)) });
@@ -328,14 +347,14 @@ pub fn evaluate(case: &Case, with_runtime_sweep: bool) -> Eval {
             Err(SqlErr::Timeout) => return Eval::Inconclusive("timeout in SET".into()),
             Err(SqlErr::Failed(_)) => {
                 labels.push("rejected".into());
-                let after = sqltry!(s.show("ALL"), "SHOW ALL");
+                let after = nrm(sqltry!(s.show("ALL"), "SHOW ALL"), rt);
                 if after != before {
                     return Eval::Finding(Finding { class: "failed-set-changes-options".into(), message: format!("SET {key} = {} failed but changed SHOW ALL: {}", quote(&value), diff(&before, &after)) });
                 }
             }
             Ok(()) => {
                 labels.push("accepted".into());
-                let after = sqltry!(s.show("ALL"), "SHOW ALL");
+                let after = nrm(sqltry!(s.show("ALL"), "SHOW ALL"), rt);
                 let one = sqltry!(s.show(&key), "SHOW key");
                 if one.get(&key) != after.get(&key) || one.len() != 1 {
                     return Eval::Finding(Finding { class: "show-key-disagrees-with-show-all".into(), message: format!("SHOW {key} gives {one:?}, SHOW ALL {:?}", after.get(&key)) });
@@ -364,7 +383,7 @@ pub fn evaluate(case: &Case, with_runtime_sweep: bool) -> Eval {
                             }
                             Ok(()) => {}
                         }
-                        let again = sqltry!(s.show("ALL"), "SHOW ALL");
+                        let again = nrm(sqltry!(s.show("ALL"), "SHOW ALL"), rt);
                         if strip(&again, "", true) != strip(&after, "", true) {
                             return Eval::Finding(Finding {
                                 class: format!("reported-text-not-idempotent:{key}"),
@@ -395,7 +414,7 @@ pub fn evaluate(case: &Case, with_runtime_sweep: bool) -> Eval {
                     }
                     Err(SqlErr::Failed(_)) => {}
                 }
-                let after = sqltry!(s.show("ALL"), "SHOW ALL");
+                let after = nrm(sqltry!(s.show("ALL"), "SHOW ALL"), rt);
                 if after != before {
                     let class = if before.get(&key) == Some(&None) && after.get(&key).map(|v| v.is_some()).unwrap_or(false) { "failed-set-materialises-default" } else { "failed-set-changes-options" };
                     return Eval::Finding(Finding { class: class.into(), message: format!("SET {key} = {} failed but changed SHOW ALL: {}", quote(&value), diff(&before, &after)) });
@@ -410,8 +429,8 @@ pub fn evaluate(case: &Case, with_runtime_sweep: bool) -> Eval {
                     }
                     Ok(()) => {}
                 }
-                let want = shadow_entries(&probe);
-                let after = sqltry!(s.show("ALL"), "SHOW ALL");
+                let want = nrm(shadow_entries(&probe), rt);
+                let after = nrm(sqltry!(s.show("ALL"), "SHOW ALL"), rt);
                 let one = sqltry!(s.show(&key), "SHOW key");
                 let t = want.get(&key).cloned().flatten();
                 if one.len() != 1 || one.get(&key).cloned().flatten() != t {
@@ -452,7 +471,7 @@ pub fn evaluate(case: &Case, with_runtime_sweep: bool) -> Eval {
                             }
                             Ok(()) => {}
                         }
-                        let again = sqltry!(s.show("ALL"), "SHOW ALL");
+                        let again = nrm(sqltry!(s.show("ALL"), "SHOW ALL"), rt);
                         if strip(&again, &key, false) != strip(&after, &key, false) {
                             return Eval::Finding(Finding {
                                 class: format!("reported-text-not-idempotent:{key}"),
